@@ -469,6 +469,44 @@ impl<'a, 'tcx> Ex<'a, 'tcx> {
     }
 }
 
+
+fn emit_adt<'tcx>(tcx: TyCtxt<'tcx>, did: DefId, ext: bool, loc: &dyn Fn(Span) -> (String, usize), out: &mut String) {
+    let adt = tcx.adt_def(did);
+    let (f, l) = if ext { (String::new(), 0) } else { loc(tcx.def_span(did)) };
+    let mut o = format!(
+        "{{\"rec\":\"adt\",\"path\":{},\"kind\":\"{}\",\"file\":{},\"line\":{},\"ext\":{},\"variants\":[",
+        q(&dps(tcx, did)),
+        if adt.is_enum() { "enum" } else if adt.is_struct() { "struct" } else { "union" },
+        q(&f),
+        l,
+        ext
+    );
+    for (vi, v) in adt.variants().iter_enumerated() {
+        if vi.as_usize() > 0 {
+            o.push(',');
+        }
+        let discr = if adt.is_enum() { adt.discriminant_for_variant(tcx, vi).val as i128 } else { 0 };
+        let _ = write!(o, "{{\"name\":{},\"discr\":{},\"fields\":[", q(v.name.as_str()), discr);
+        for (fi, fd) in v.fields.iter().enumerate() {
+            if fi > 0 {
+                o.push(',');
+            }
+            let fty = tcx.type_of(fd.did).instantiate_identity().skip_norm_wip();
+            let _ = write!(
+                o,
+                "[{},{},{}]",
+                q(fd.name.as_str()),
+                q(&tys(fty)),
+                q(&format!("{:?}", fd.vis).chars().take(40).collect::<String>())
+            );
+        }
+        o.push_str("]}");
+    }
+    o.push_str("]}");
+    out.push_str(&o);
+    out.push('\n');
+}
+
 fn export<'tcx>(tcx: TyCtxt<'tcx>) {
     let out_dir = match std::env::var("DFSCAN_OUT") {
         Ok(d) => d,
@@ -524,43 +562,7 @@ fn export<'tcx>(tcx: TyCtxt<'tcx>) {
         let did = id.owner_id.to_def_id();
         match tcx.def_kind(did) {
             DefKind::Struct | DefKind::Enum | DefKind::Union => {
-                let adt = tcx.adt_def(did);
-                let (f, l) = loc(tcx.def_span(did));
-                let mut o = format!(
-                    "{{\"rec\":\"adt\",\"path\":{},\"kind\":\"{}\",\"file\":{},\"line\":{},\"variants\":[",
-                    q(&dps(tcx, did)),
-                    if adt.is_enum() { "enum" } else if adt.is_struct() { "struct" } else { "union" },
-                    q(&f),
-                    l
-                );
-                for (vi, v) in adt.variants().iter_enumerated() {
-                    if vi.as_usize() > 0 {
-                        o.push(',');
-                    }
-                    let discr = if adt.is_enum() {
-                        adt.discriminant_for_variant(tcx, vi).val as i128
-                    } else {
-                        0
-                    };
-                    let _ = write!(o, "{{\"name\":{},\"discr\":{},\"fields\":[", q(v.name.as_str()), discr);
-                    for (fi, fd) in v.fields.iter().enumerate() {
-                        if fi > 0 {
-                            o.push(',');
-                        }
-                        let fty = tcx.type_of(fd.did).instantiate_identity().skip_norm_wip();
-                        let _ = write!(
-                            o,
-                            "[{},{},{}]",
-                            q(fd.name.as_str()),
-                            q(&tys(fty)),
-                            q(&format!("{:?}", fd.vis).chars().take(40).collect::<String>())
-                        );
-                    }
-                    o.push_str("]}");
-                }
-                o.push_str("]}");
-                out.push_str(&o);
-                out.push('\n');
+                emit_adt(tcx, did, false, &loc, &mut out);
                 n_adt += 1;
             }
             DefKind::Trait => {
@@ -652,14 +654,47 @@ fn export<'tcx>(tcx: TyCtxt<'tcx>) {
         let ex = Ex { tcx, body, owner, tenv };
         let (f, l) = loc(tcx.def_span(did));
         let mut o = format!(
-            "{{\"rec\":\"fn\",\"d\":{},\"u\":{},\"k\":\"{}\",\"file\":{},\"line\":{},\"argc\":{}",
+            "{{\"rec\":\"fn\",\"d\":{},\"u\":{},\"k\":\"{}\",\"file\":{},\"line\":{}",
             q(&dps(tcx, did)),
             q(&tcx.def_path(did).to_string_no_crate_verbose()),
             kind,
             q(&f),
-            l,
-            body.arg_count
+            l
         );
+        // signature and unique callee names first: the python index reads them without parsing the body
+        o.push_str(",\"sig\":[");
+        for i in 0..=body.arg_count {
+            if i > 0 {
+                o.push(',');
+            }
+            o.push_str(&q(&tys(body.local_decls[Local::from_usize(i)].ty)));
+        }
+        o.push_str("],\"callees\":[");
+        {
+            let mut seen: Vec<String> = Vec::new();
+            for bb in body.basic_blocks.iter() {
+                if let TerminatorKind::Call { func: Operand::Constant(c), .. } = &bb.terminator().kind {
+                    if let ty::FnDef(d, a) = c.const_.ty().kind() {
+                        let mut name = dps(tcx, *d);
+                        if let Ok(nargs) = tcx.try_normalize_erasing_regions(tenv, ty::Unnormalized::new_wip(*a)) {
+                            if let Ok(Some(inst)) = Instance::try_resolve(tcx, tenv, *d, nargs) {
+                                name = dps(tcx, inst.def_id());
+                            }
+                        }
+                        if !seen.contains(&name) {
+                            seen.push(name);
+                        }
+                    }
+                }
+            }
+            for (i, n) in seen.iter().enumerate() {
+                if i > 0 {
+                    o.push(',');
+                }
+                o.push_str(&q(n));
+            }
+        }
+        let _ = write!(o, "],\"argc\":{}", body.arg_count);
         if body.coroutine.is_some() {
             o.push_str(",\"coroutine\":true");
         }
@@ -699,6 +734,37 @@ fn export<'tcx>(tcx: TyCtxt<'tcx>) {
         out.push_str(&o);
         out.push('\n');
         n_fn += 1;
+    }
+    // external enums that the bodies switch on or construct (variant tables are needed by the analyses)
+    {
+        let mut ext: Vec<DefId> = Vec::new();
+        for (_, body) in bodies.iter() {
+            for bb in body.basic_blocks.iter() {
+                for st in &bb.statements {
+                    if let StatementKind::Assign(b) = &st.kind {
+                        let d = match &b.1 {
+                            Rvalue::Discriminant(p) => match p.ty(&body.local_decls, tcx).ty.kind() {
+                                ty::Adt(a, _) => Some(a.did()),
+                                _ => None,
+                            },
+                            Rvalue::Aggregate(k, _) => match &**k {
+                                AggregateKind::Adt(d, ..) => Some(*d),
+                                _ => None,
+                            },
+                            _ => None,
+                        };
+                        if let Some(d) = d {
+                            if !d.is_local() && tcx.adt_def(d).is_enum() && !ext.contains(&d) {
+                                ext.push(d);
+                            }
+                        }
+                    }
+                }
+            }
+        }
+        for d in ext {
+            emit_adt(tcx, d, true, &loc, &mut out);
+        }
     }
     let _ = writeln!(
         out,
